@@ -1,6 +1,6 @@
 SPEC = dict(
     id="C26",
-    level_text="Theorem C26_no_replay (Lean 4, all integer times/offsets, any prior and interleaved traffic): a message accepted once is never accepted again provided ttl >= (2*tol+1)s; C26_sites re-proves that side condition by `decide` over the (tolerance, ttl) pairs factgen extracts from every NewNonceCache call site of the current source; C26_window/C26_badmac_inert cover the rejection clauses; tightness witnesses show the condition cannot be weakened. The model is diffed against the real validators + NonceCache under a virtual clock on an edge grid and random replay histories.",
+    level_text="Theorem C26_no_replay (Lean 4, all integer times/offsets, any prior and interleaved traffic): a message accepted once is never accepted again provided ttl >= (2*tol+1)s; C26_sites re-proves that side condition by `decide` over the (tolerance, ttl) pairs factgen extracts from every NewNonceCache call site of the current source; C26_window/C26_badmac_inert cover the rejection clauses; tightness witnesses show the condition cannot be weakened. The model is diffed against the real validators + NonceCache (function level), the real fiber cache-invalidate handler, Coordinator.handleForwardApply/handleReplicateSync over net.Pipe and the real coordinator lifecycle (NewCoordinator→Start→TCP) under a virtual clock, on an edge grid and random replay histories incl. replays whose MAC hex is re-spelled, plus a concurrency stage (8 simultaneous copies of one signed request: exactly one may be accepted).",
     technique="Lean 4 invariant proof (Remembers) over a model of NonceCache.Track + freshness; regenerated call-site constants; differential correspondence under a virtual clock",
     factgen=True,
     clockify=[
